@@ -26,8 +26,20 @@ def build(ctx, family, only_step=None):
             if w == 32:
                 ex += ['-DGoldilocks=GoldilocksMdl']
             objs.append((pre + '_w%d.o' % w, [KTU], ctx.flags_scaled(w, sig=True, avx512=avx512, extra=ex), []))
+    # other build configurations of the SAME kernels (see matrix_common): AVX2 kernels inside an AVX-512 build and under -march=native
+    xcfg = []
+    if not avx512:
+        if ctx.hardware_avx512:
+            xcfg.append(('a512', ctx.flags_native(avx512=True, extra=inc)))
+        xcfg.append(('march', ctx.flags_native(avx512=False, extra=inc + ['-march=native'])))
+        for tag, fl in xcfg:
+            objs.append((pre + '_nat_%s.o' % tag, [KTU], fl + ['-DKNS=nat', '-c'], []))
+    ctx.xcfg = [t_ for t_, _ in xcfg]
     o = ctx.compile_many(objs)
     base = ['-std=c++17', '-O2', '-fopenmp', '-w', '-I' + vlib.COMMON, '-I' + H]
+    for tag, fl in xcfg:
+        if pre + '_nat_%s.o' % tag in o:
+            jobs.append((pre + '_native_' + tag, [MAIN, o[pre + '_nat_%s.o' % tag]], base + ['-DHAVE_NAT'], []))
     if native_ok:
         jobs.append((pre + '_native', [MAIN, o[pre + '_nat.o']], base + ['-DHAVE_NAT'], []))
     if t:
@@ -56,6 +68,11 @@ def explore(ctx):
                        'small-scope: all inputs for w in the listed widths; 64-bit layer on alphabets and lifted path signatures',
                        'operand assumptions taken from the header comments: shifted/canonical first operand, b<=p-1, multiplier < 2^8 (scaled: < min(2^8,2^w)), c_h < 2^w for the 96-bit reduction']
     sigs = []
+    for tag in getattr(ctx, 'xcfg', []):
+        n = pre + '_native_' + tag
+        if n in ctx.bins:
+            ctx.run_step(n, ctx.bins[n], fa)
+            ctx.bounds.setdefault('other build configurations of the same kernels', []).append({'a512': '-mavx512f -D__AVX512__', 'march': '-march=native'}[tag])
     if ctx.native_ok:
         ctx.run_step(pre + '_native', ctx.bins[pre + '_native'], fa)
     else:
